@@ -12,7 +12,7 @@ use serde::{Deserialize, Serialize};
 pub fn def() -> PropDef {
     PropDef {
         id: "C13",
-        rule: "generated: codec family x engine x configuration class x even shard size x two data sets A, B x field constant c (incl. 0, 1, 0xFFFF, single-bit symbols). oracle (metamorphic, no reference encoder): enc(A xor B) == enc(A) xor enc(B); enc(0) == 0; enc(c*A) == c*enc(A), the slot-wise product computed by the independent field arithmetic through the documented byte placement. non-trivial: A, B non-zero, A != B, c not in {0,1}; distinct by full case",
+        rule: "generated: codec family x engine x configuration class x even shard size x two data sets A, B x field constant c (incl. 0, 1, 0xFFFF, single-bit symbols). half of the cases on one reused encoder object. oracle (metamorphic, no reference encoder): enc(A xor B) == enc(A) xor enc(B); enc(0) == 0; enc(c*A) == c*enc(A), the slot-wise product computed by the independent field arithmetic through the documented byte placement. non-trivial: A, B non-zero, A != B, c not in {0,1}; distinct by full case",
         assumptions: &[],
         parts,
     }
@@ -67,7 +67,13 @@ fn check(c: &LinCase, st: &mut Stats) -> CheckResult {
     let Cfg { k, r, b } = c.cfg;
     let a = c.a.expand(k, b);
     let bb = c.b.expand(k, b);
-    let enc = |d: &[Vec<u8>]| encode_all(c.kind, c.eng, k, r, b, d).map_err(|e| format!("encode failed: {e:?}"));
+    // half of the cases encode everything on ONE reused encoder (parity updates in real use do that)
+    let reuse = c.a.seed & 1 == 1;
+    let mut shared = if reuse { Some(make_enc(c.kind, c.eng, k, r, b, None).map_err(|e| format!("encoder construction failed: {e:?}"))?) } else { None };
+    let mut enc = |d: &[Vec<u8>]| match shared.as_mut() {
+        Some(e) => encode_on(&mut **e, d).map_err(|e| format!("encode on a reused encoder failed: {e:?}")),
+        None => encode_all(c.kind, c.eng, k, r, b, d).map_err(|e| format!("encode failed: {e:?}")),
+    };
     let ea = enc(&a)?;
     let eb = enc(&bb)?;
     let eab = enc(&xor_sets(&a, &bb))?;
@@ -88,6 +94,7 @@ fn check(c: &LinCase, st: &mut Stats) -> CheckResult {
     st.classf("kind", c.kind.name());
     st.classf("engine", c.eng.name());
     st.classf("size", gen::size_class(b));
+    st.classf("reused_encoder", reuse);
     let nz = |d: &[Vec<u8>]| d.iter().any(|s| s.iter().any(|&x| x != 0));
     if nz(&a) && nz(&bb) && a != bb && c.c > 1 {
         st.nontrivial_case("linearity", c);
